@@ -26,3 +26,27 @@ Proof. split; reflexivity. Qed.
 Print Assumptions C09_injection_mode_irrelevant.
 Print Assumptions C09_same_frame.
 Print Assumptions C09_quiet_frame.
+
+(* ---- world level (Proofs/TrackFrameP.v): in ANY well-formed registry, a frame that leaves the stored state of
+   (context type c, entity e, action a) unchanged delivers no Started, Canceled or Completed to e for a; and what it does
+   deliver is computed from this frame's raw input and time (the stored data after the frame is ActionData::update of the
+   data before it) ---- *)
+From BEI Require Import Proofs.StateP Proofs.RegistryP Proofs.TrackDefs Proofs.TrackFrameP.
+Theorem C09_world_quiet_frame : forall sc c e a tm r c0 gs d d',
+  reg_wf gs -> cfg_inv sc gs -> owner sc c a -> ev_free sc c a ->
+  stored gs c e a = Some d ->
+  stored (ro_reg (reg_update tm r c0 gs)) c e a = Some d' -> d_state d' = d_state d ->
+  forall main, ro_events (reg_update tm r c0 gs) = Some main ->
+  Forall (fun ev => e_kind ev <> EStarted /\ e_kind ev <> ECanceled /\ e_kind ev <> ECompleted) (ev_of e a main).
+Proof.
+  intros sc c e a tm r c0 gs d d' Hwf Hcfg Ho Hf Hs Hs' Hq main Hm.
+  destruct (track_frame sc c e a tm r c0 gs Hwf Hcfg Ho Hf) as (m1 & Hm1 & _ & T). cbv zeta in Hm1, T.
+  rewrite Hm in Hm1. injection Hm1 as <-. rewrite Hs in T. destruct T as (s1 & v & _ & S1 & E1).
+  rewrite Hs' in S1. injection S1 as ->.
+  assert (Hst : s1 = d_state d).
+  { rewrite <- Hq. symmetry. apply (data_update_fields (vdelta tm) d s1 v). }
+  subst s1. rewrite E1. apply Forall_forall. intros ev Hin. apply in_map_iff in Hin. destruct Hin as (k & <- & Hk).
+  destruct (quiet_transition (d_state d)) as (Q1 & Q2 & Q3).
+  repeat split; intros Hc; [apply Q1 | apply Q2 | apply Q3]; destruct k; cbn in Hc; try discriminate; exact Hk.
+Qed.
+Print Assumptions C09_world_quiet_frame.
